@@ -164,9 +164,19 @@ def linkExt (ms : List Mdl) (e : ExtVar) : ExtVar :=
 
 /-- what storing a value into `np.zeros(n)` does to an idx: numbers stay, a string goes through `float()`
 (a digit string becomes that number, anything else raises `ValueError`) -/
+def digitsVal : List Char → Nat → Option Nat
+  | [], acc => some acc
+  | c :: cs, acc => if '0' ≤ c ∧ c ≤ '9' then digitsVal cs (acc * 10 + (c.toNat - 48)) else none
+
+/-- `float(s)` for the strings the generator produces: an optional sign and decimal digits -/
+def parseIntChars : List Char → Option Int
+  | [] => none
+  | '-' :: rest => if rest.isEmpty then none else (digitsVal rest 0).map (fun n => -(Int.ofNat n))
+  | cs => (digitsVal cs 0).map Int.ofNat
+
 def coerceNum : Idx → Option Idx
   | .num k => some (.num k)
-  | .str s => s.toInt?.map Idx.num
+  | .str s => (parseIntChars s.toList).map Idx.num
 
 /-- `Group.get(src, idx, 'v')` on an idx-valued parameter (how `ExtParam.link_external` borrows e.g. `syn` of an
 exciter): the container is typed by the FIRST value — a string gives a Python list that takes anything, a number
